@@ -14,7 +14,8 @@
    reported path in both notations).  What is not proved is listed in
    docs/C02.md. *)
 From Coq Require Import List Ascii String ZArith NArith Bool.
-From YP Require Import Outcome PyStr PyVal Doc Generated PathParser PathPrinter Searches Eval SpecC01 EvalSem EvalLocate.
+From YP Require Import Outcome PyStr PyVal Doc Generated PathParser PathPrinter Searches Eval SpecC01 EvalSem EvalLocate
+  EvalSemPath EvalLocAll.
 Import ListNotations.
 Open Scope string_scope.
 
@@ -68,3 +69,58 @@ Example C02_traversal_ancestry :
   | _ => False
   end.
 Proof. vm_compute. reflexivity. Qed.
+
+
+(* ======================================================================== *)
+(* ALL HANDLERS of the C01 fragment (key incl. pass-through, index, hash / set
+   slices, anchor, search with its five candidate loops, `*` and `**` with and
+   without a following segment): every real result of the required query, for
+   every document, every path of the fragment in which slices (whose array form
+   yields a virtual result) stand last, every oracle.
+   [child_rel p r m]: indexing the parent p by the reference r gives m -- a hash
+   pair whose key is (equal to) r and whose value is m, the element at position
+   r counted from the front or, negative, from the end, a member of the set.
+   [walks d anc m]: the ancestry chain starts at the root d, every link is such
+   a child step, and it ends at m. *)
+Theorem C02_parentref :
+  forall lit re_search nstr vstr kw_handler creator segs d m par r path anc,
+    c01_frag (PPath segs) = true -> slices_last segs = true ->
+    In (RCoords (RNode m) (Some par) (Some r) path anc)
+       (fst (get_required lit re_search nstr vstr kw_handler creator (PPath segs) d)) ->
+    exists p, par = RNode p /\ child_rel p r m.
+Proof. exact required_parentref. Qed.
+Print Assumptions C02_parentref.
+
+Theorem C02_ancestry :
+  forall lit re_search nstr vstr kw_handler creator segs d m par rf path anc,
+    c01_frag (PPath segs) = true -> slices_last segs = true ->
+    In (RCoords (RNode m) par rf path anc)
+       (fst (get_required lit re_search nstr vstr kw_handler creator (PPath segs) d)) ->
+    walks d anc m /\
+    match par with
+    | None => anc = [] /\ m = d
+    | Some p => exists anc' r', anc = (anc' ++ [(p, r')])%list
+    end.
+Proof. exact required_ancestry. Qed.
+Print Assumptions C02_ancestry.
+
+(* every result is a NodeCoords around a document node (located) or around a
+   virtual slice result *)
+Theorem C02_results_located :
+  forall lit re_search nstr vstr kw_handler creator d p segs,
+    p = PPath segs -> c01_frag p = true -> slices_last segs = true ->
+    Forall (res_loc true d) (fst (get_required lit re_search nstr vstr kw_handler creator p d)).
+Proof. exact required_located. Qed.
+Print Assumptions C02_results_located.
+
+(* non-vacuity: paths of the fragment with real results on doc_x = {x: [{a: 1}]} *)
+Definition c02_nv (text : string) (n : nat) : Prop :=
+  match prepare 20 text with
+  | Ok (PPath segs) =>
+      c01_frag (PPath segs) = true /\ slices_last segs = true /\
+      List.length (nodes_of (fst (get_required lit3 re3 (fun _ => "") (fun _ => "") kw3 cr3 (PPath segs) doc_x))) = n
+  | _ => False
+  end.
+Example C02_all_handlers_nonvacuous :
+  c02_nv "x.a" 1 /\ c02_nv "x[0].*" 1 /\ c02_nv "**[.=a]" 1 /\ c02_nv "x.*[a!=2]" 1 /\ c02_nv "x[-1][a:b]" 1.
+Proof. vm_compute. repeat split. Qed.
